@@ -27,7 +27,7 @@ const (
 
 func init() {
 	register("C12", "other", "T13 TotalOrder comparator (exhaustive abstract evaluation over the order type of the two keys, atoms via NormCmp), T10-iii MapOrder, T14-style codec type agreement, T6 WhoMayWrite + alias rule over the module, T15 ConstRelation, T4 GuardedBy",
-		"Decides the shape the canonical form depends on. Comparator: validators.Less is evaluated abstractly on all 9 order types of (Weight_i ? Weight_j, ID_i ? ID_j) and equals 'Weight descending, then ID ascending'; Swap exchanges the two elements (its straight-line body is executed on the symbolic state vv[i]=I, vv[j]=J), Len is len; the tie-break field ID of every sorted element is the key of the ranged map (unique). sortedArray puts one element {ID: key, Weight: value} per map entry into a slice that holds nothing else (append to an empty slice, or stores at a counter that starts at 0 and advances by one per iteration into a slice of exactly len(values) slots; no early exit, none skipped), sorts with that comparator before every return, and the slice has no other use before the sort. calcCaches iterates over sortedArray() from the first element (range, or a loop counted by one up to len of a local holding it; index and element bound by the loop header only) and stores ids[i], weights[i], indexes[id]=i for the loop index and the element of that iteration (range value, C[i], or a local holding C[i]) on every iteration. Constructors may give fields in the literal (keyed or positional) or by single stores through the fresh, non-escaping local that holds the object. Only non-zero pairs: ValidatorsBuilder.Set stores only on the edge weight != 0 and deletes otherwise; newValidators fills a fresh map through Set and stores that map. RLP: EncodeRLP encodes sortedArray(); DecodeRLP decodes a slice with the identical element type, feeds every element to a fresh builder and replaces the receiver by the built set only after a successful decode. Immutability: T6 on all fields of Validators and cache (module-wide for literals and whole-struct stores), Copy/Build return newValidators(...) (fresh objects), and the alias rule: over all packages of the module, every value derived from cache.ids/weights/indexes or Validators.values - through the accessors that return them uncopied (discovered, not listed: IDs, SortedIDs, SortedWeights, Idxs), local variables, struct fields, parameters of module functions (flow-insensitive propagation on the typed AST to a fixpoint; accessor method values, interfaces exposing an accessor, containers and foreign callees are undecided) - is only ranged, indexed for reading, measured, compared with nil or copied from; an element store, append, sort, delete, copy-into or address-of is a violation, an unclassified use is undecided. Big builder: one shift variable, never assigned after its first use, is the second argument of every Rsh applied to each ranged stake; shift is 0 or bits-B on the edge bits > B (shift = max(0, BitLen(total)-B)); T15: 2^B-1 <= K < 2^(B+1)-1 for the limit K of calcCaches, so the scaled total fits (Build cannot reach the overflow panic) and the shift is the smallest that guarantees it; a common floor-shift is monotone, so stake order is kept. Not decided: equality of the decoded and the original set as a runtime fact (follows from the above modulo the RLP library, trusted); behaviour for negative big stakes (Set only drops nil and zero; outside the quantifier).",
+		"Decides the shape the canonical form depends on. Comparator: validators.Less is evaluated abstractly on all 9 order types of (Weight_i ? Weight_j, ID_i ? ID_j) and equals 'Weight descending, then ID ascending'; Swap exchanges the two elements (its straight-line body is executed on the symbolic state vv[i]=I, vv[j]=J), Len is len; the tie-break field ID of every sorted element is the key of the ranged map (unique). sortedArray puts one element {ID: key, Weight: value} per map entry into a slice that holds nothing else (append to an empty slice, or stores at a counter that starts at 0 and advances by one per iteration into a slice of exactly len(values) slots; no early exit, none skipped), sorts with that comparator before every return, and the slice has no other use before the sort. Function bodies are read as written or through their inlined views (helpers and local closures looked through, see c11_view.go); stores of delegates are attributed to their callers (c11_deleg.go). calcCaches iterates over sortedArray() from the first element, in one pass or one pass per cache field (range, or a loop counted by one up to len of a local holding it; index and element bound by the loop header only) and stores ids[i], weights[i], indexes[id]=i for the loop index and the element of that iteration (range value, C[i], or a local holding C[i]) on every iteration. Constructors may give fields in the literal (keyed or positional) or by single stores through the fresh, non-escaping local that holds the object. Only non-zero pairs: ValidatorsBuilder.Set stores only on the edge weight != 0 and deletes otherwise; newValidators fills a fresh map through Set and stores that map. RLP: EncodeRLP encodes sortedArray(); DecodeRLP decodes a slice with the identical element type, feeds every element to a fresh builder and replaces the receiver by the built set only after a successful decode. Immutability: T6 on all fields of Validators and cache (module-wide for literals and whole-struct stores), Copy/Build return newValidators(...) (fresh objects), and the alias rule: over all packages of the module, every value derived from cache.ids/weights/indexes or Validators.values - through the accessors that return them uncopied (discovered, not listed: IDs, SortedIDs, SortedWeights, Idxs), local variables, struct fields, parameters of module functions (flow-insensitive propagation on the typed AST to a fixpoint; accessor method values, interfaces exposing an accessor, containers and foreign callees are undecided) - is only ranged, indexed for reading, measured, compared with nil or copied from; an element store, append, sort, delete, copy-into or address-of is a violation, an unclassified use is undecided. Big builder: one shift variable, never assigned after its first use, is the second argument of every Rsh applied to each ranged stake; shift is 0 or bits-B on the edge bits > B (shift = max(0, BitLen(total)-B)); T15: 2^B-1 <= K < 2^(B+1)-1 for the limit K of calcCaches, so the scaled total fits (Build cannot reach the overflow panic) and the shift is the smallest that guarantees it; a common floor-shift is monotone, so stake order is kept. Not decided: equality of the decoded and the original set as a runtime fact (follows from the above modulo the RLP library, trusted); behaviour for negative big stakes (Set only drops nil and zero; outside the quantifier).",
 		[]string{"go-ethereum rlp encodes/decodes a slice of struct{ID,Weight} faithfully and in order", "sort.Sort yields a permutation sorted by the given strict total order", "math/big contracts (BitLen, Rsh, Uint64, Add)", "big stakes are non-negative"},
 		runC12)
 }
@@ -46,6 +46,7 @@ type c12Cmp struct {
 	pi, pj *types.Var
 	cs     map[string]int // field -> sign(elem_i.field - elem_j.field)
 	err    string
+	env    map[*types.Var]bool // boolean locals assigned so far on the walked path (result variables)
 }
 
 func (k *c12Cmp) elemSide(e ast.Expr, depth int) (int, bool) {
@@ -102,6 +103,12 @@ func (k *c12Cmp) eval(e ast.Expr) bool {
 		return constant.BoolVal(v)
 	}
 	switch x := e.(type) {
+	case *ast.Ident:
+		if v := varOf(k.f, x); v != nil {
+			if val, ok := k.env[v]; ok {
+				return val
+			}
+		}
 	case *ast.UnaryExpr:
 		if x.Op == token.NOT {
 			return !k.eval(x.X)
@@ -145,8 +152,32 @@ func (k *c12Cmp) eval(e ast.Expr) bool {
 	return false
 }
 
+// setBool records the value of a boolean local: rhs evaluated in the current case (nil: the zero value).
+// A right-hand side that cannot be evaluated leaves the variable unknown (an error only if it is read).
+func (k *c12Cmp) setBool(v *types.Var, rhs ast.Expr) {
+	if v == nil {
+		return
+	}
+	if b, ok := v.Type().Underlying().(*types.Basic); !ok || b.Kind() != types.Bool {
+		return
+	}
+	if rhs == nil {
+		k.env[v] = false
+		return
+	}
+	saved := k.err
+	val := k.eval(rhs)
+	if k.err != saved {
+		k.err = saved
+		delete(k.env, v)
+		return
+	}
+	k.env[v] = val
+}
+
 // run walks the CFG under the current case and returns the comparator's result.
 func (k *c12Cmp) run() bool {
+	k.env = map[*types.Var]bool{}
 	b := k.f.CFG().Blocks[0]
 	for steps := 0; steps < 256 && k.err == ""; steps++ {
 		for _, n := range b.Nodes {
@@ -162,6 +193,23 @@ func (k *c12Cmp) run() bool {
 					if v := varOf(k.f, l); v == nil || v == k.recv || v == k.pi || v == k.pj {
 						k.err = "assignment to something other than a local variable"
 						return false
+					}
+				}
+				// a boolean local (result variable) takes the value its right-hand side has now
+				if (s.Tok == token.ASSIGN || s.Tok == token.DEFINE) && len(s.Lhs) == len(s.Rhs) {
+					for i, l := range s.Lhs {
+						k.setBool(varOf(k.f, l), s.Rhs[i])
+					}
+				}
+			case *ast.ValueSpec:
+				// var x T [= e] (go/cfg lists the specs of a declaration statement)
+				for i, nm := range s.Names {
+					v, _ := k.f.Info().Defs[nm].(*types.Var)
+					switch {
+					case len(s.Values) == 0:
+						k.setBool(v, nil)
+					case len(s.Values) == len(s.Names):
+						k.setBool(v, s.Values[i])
 					}
 				}
 			case *ast.DeclStmt, ast.Expr:
@@ -469,8 +517,8 @@ func c12MethodCallOn(f *core.FuncInfo, e ast.Expr, name string, recvIs func(ast.
 func runC12(c *core.Ctx) {
 	p := c.P
 
-	c.Clause("C12.comparator", func() {
-		less := c.Fn(c12Arr + ".Less")
+	c11Clause(c, "C12.comparator", func(c *core.Ctx) {
+		less := c11Fn(c, c12Arr+".Less")
 		k := &c12Cmp{f: less, recv: less.Recv(), pi: less.Param(0), pj: less.Param(1)}
 		c.Need(k.recv != nil && k.pi != nil && k.pj != nil, "Less has a named receiver and two named index parameters")
 		c.Fld(c12FID)
@@ -498,14 +546,14 @@ func runC12(c *core.Ctx) {
 			fmt.Sprintf("on all %d order types of the two keys Less(i,j) = Weight_i > Weight_j || (Weight_i == Weight_j && ID_i < ID_j): a strict lexicographic order, total because IDs are unique", n),
 			"the sort comparator is not 'weight descending, ties by ascending ID' ("+c12First(bad, 2)+"): canonical order, index mapping and the encoded form change or depend on map iteration order")
 		// Swap and Len
-		sw := c.Fn(c12Arr + ".Swap")
+		sw := c11Fn(c, c12Arr+".Swap")
 		okSw, whySw := c12SwapExchanges(sw)
 		if okSw {
 			c.Pass("Swap exchanges elements i and j", "T13 (sort.Interface)", "executing Swap's straight-line body on the symbolic state vv[i]=I, vv[j]=J ends in vv[i]=J, vv[j]=I and stores nothing else")
 		} else {
 			c.Undecided("Swap exchanges elements i and j", "T13 (sort.Interface)", sw.Pos(), "Swap is not shown to exchange exactly the elements i and j ("+whySw+"): sort.Sort may not produce a sorted permutation")
 		}
-		ln := c.Fn(c12Arr + ".Len")
+		ln := c11Fn(c, c12Arr+".Len")
 		okLen := len(ln.ReturnPoints()) > 0
 		for _, rp := range ln.ReturnPoints() {
 			r := rp.Node().(*ast.ReturnStmt)
@@ -518,8 +566,8 @@ func runC12(c *core.Ctx) {
 		c.Check(okLen, "Len is len(receiver)", "T13 (sort.Interface)", ln.Pos(), "Len returns len(vv)", "Len does not return the slice length: part of the array stays unsorted")
 	})
 
-	c.Clause("C12.sorted", func() {
-		f := c.Fn(c11V + ".sortedArray")
+	c11Clause(c, "C12.sorted", func(c *core.Ctx) {
+		f := c11Fn(c, c11V+".sortedArray")
 		recv := f.Recv()
 		c.Need(recv != nil, "sortedArray has a named receiver")
 		loops := c12RangeOver(f, func(e ast.Expr) bool { return c11IsPath(f, e, recv, c11FVValues) })
@@ -692,54 +740,83 @@ func runC12(c *core.Ctx) {
 			}
 			return true
 		})
+		if _, hit := c11LitEffect(f, nil, map[*types.Var]bool{A: true}, true); hit {
+			okUse = false // a function literal that is not looked through has the slice
+		}
 		c.Check(okUse, "slice not used before the sort", "T10-iii MapOrder", f.Pos(), "the slice is only appended to, sorted, measured and returned", "the slice under construction is read or escapes in map iteration order")
 	})
 
-	c.Clause("C12.cache", func() {
-		calc := c.Fn(c11V + ".calcCaches")
+	c11Clause(c, "C12.cache", func(c *core.Ctx) {
+		calc := c11Fn(c, c11V+".calcCaches")
 		V, _, _, _ := c11FindLimit(calc)
 		c.Need(V != nil && calc.Recv() != nil, "calcCaches returns one local cache variable")
 		// the loop over the canonical array, written as a range or as a counted loop over a local holding it
 		its := c11Iterations(calc, func(coll ast.Expr) bool {
 			return coll != nil && c12MethodCallOn(calc, coll, c11V+".sortedArray", func(r ast.Expr) bool { return varOf(calc, r) == calc.Recv() }) != nil
 		})
-		c.Need(len(its) == 1, "calcCaches iterates once over receiver.sortedArray() from the first element, index and element bound by the loop header only")
-		it := its[0]
-		c.Need(it.Index != nil, "the loop over sortedArray() has an index variable")
-		loop := it.Stmt
-		isElemField := it.isElemField
+		// one pass, or several (a loop split into one pass per cache field): sortedArray() is deterministic,
+		// so every pass meets the same elements at the same indices
+		c.Need(len(its) >= 1, "calcCaches iterates over receiver.sortedArray() from the first element, index and element bound by the loop header only")
+		for _, it := range its {
+			c.Need(it.Index != nil, "the loop over sortedArray() has an index variable")
+		}
+		if pos, hit := c11LitEffect(calc, map[string]bool{c11FIDs: true, c11FWeights: true, c11FIndexes: true}, map[*types.Var]bool{V: true}, false); hit {
+			c.Fail("no effect hidden in a function literal", "T6 (closures)", pos, "a function literal of calcCaches that is not looked through writes the cache: ids, weights and indexes need not describe the canonical order")
+		}
 		type want struct {
-			name, field string
-			idx, val    func(ast.Expr) bool
+			name, field   string
+			idxFld, valID bool   // the index (resp. the value) is the element's ID rather than the loop index
+			valField      string // the value is this field of the element ("" when the value is the loop index)
 		}
-		isI := it.isIndex
 		ws := []want{
-			{"ids[i] = element.ID", c11FIDs, isI, func(e ast.Expr) bool { return isElemField(e, c12FID) }},
-			{"weights[i] = element.Weight", c11FWeights, isI, func(e ast.Expr) bool { return isElemField(e, c12FWeight) }},
-			{"indexes[element.ID] = i", c11FIndexes, func(e ast.Expr) bool { return isElemField(e, c12FID) }, isI},
+			{name: "ids[i] = element.ID", field: c11FIDs, valField: c12FID},
+			{name: "weights[i] = element.Weight", field: c11FWeights, valField: c12FWeight},
+			{name: "indexes[element.ID] = i", field: c11FIndexes, idxFld: true},
 		}
-		complete := it.Complete
 		for _, w := range ws {
-			var pts []core.Point
 			ok := true
+			pts := map[*c11Iter][]core.Point{}
+			n := 0
 			for _, a := range assignments(calc) {
 				ix, isIx := ast.Unparen(a.LHS).(*ast.IndexExpr)
 				if !isIx || !c11IsPath(calc, ix.X, V, w.field) {
 					continue
 				}
-				if a.Tok != token.ASSIGN || a.RHS == nil || !w.idx(ix.Index) || !w.val(a.RHS) || enclosingLoop(calc, a.Stmt.Pos()) != ast.Stmt(loop) {
+				n++
+				var it *c11Iter
+				for _, cand := range its {
+					if cand.Stmt == enclosingLoop(calc, a.Stmt.Pos()) {
+						it = cand
+					}
+				}
+				if it == nil || a.Tok != token.ASSIGN || a.RHS == nil {
+					ok = false
+					continue
+				}
+				var okIdx, okVal bool
+				if w.idxFld {
+					okIdx, okVal = it.isElemField(ix.Index, c12FID), it.isIndex(a.RHS)
+				} else {
+					okIdx, okVal = it.isIndex(ix.Index), it.isElemField(a.RHS, w.valField)
+				}
+				if !okIdx || !okVal {
 					ok = false
 				}
-				pts = append(pts, a.Pt)
+				pts[it] = append(pts[it], a.Pt)
 			}
-			ok = ok && len(pts) > 0 && complete && c12NoReturnInside(calc, loop) && c12EveryIteration(calc, loop, pts)
-			c.Check(ok, w.name, "T7 Pairing (canonical position)", loop.Pos(), "stored for every element of sortedArray() at its canonical position",
+			covered := false
+			for it, ps := range pts {
+				if it.Complete && c12NoReturnInside(calc, it.Stmt) && c12EveryIteration(calc, it.Stmt, ps) {
+					covered = true
+				}
+			}
+			c.Check(ok && n > 0 && covered, w.name, "T7 Pairing (canonical position)", its[0].Stmt.Pos(), "stored for every element of sortedArray() at its canonical position",
 				"the cache entry "+w.name+" is not written for every element at the loop index: SortedIDs/SortedWeights/Idxs/GetIdx disagree with the canonical order")
 		}
 	})
 
-	c.Clause("C12.nonzero", func() {
-		set := c.Fn(c12B + ".Set")
+	c11Clause(c, "C12.nonzero", func(c *core.Ctx) {
+		set := c11Fn(c, c12B+".Set")
 		recv, idP, wP := set.Recv(), set.Param(0), set.Param(1)
 		c.Need(recv != nil && idP != nil && wP != nil, "Set(id, weight) has named receiver and parameters")
 		namer := func(e ast.Expr) string {
@@ -791,6 +868,9 @@ func runC12(c *core.Ctx) {
 				okG = false
 			}
 		}
+		if _, hit := c11LitEffect(set, nil, map[*types.Var]bool{recv: true}, false); hit {
+			okShape = false // a function literal that is not looked through stores into the builder
+		}
 		c.Check(okG && okShape, "Set stores only non-zero weights", "T4 GuardedBy", set.Pos(), "vv[id] = weight happens only on the edge weight != 0",
 			"a zero weight can be stored: the set then contains a zero-weight member (Len, order and encoding depend on zero pairs)")
 		okD := len(dels) > 0
@@ -808,12 +888,13 @@ func runC12(c *core.Ctx) {
 		}
 		c.Check(okD, "Set(id, 0) deletes", "T5 ExactlyOneOf", set.Pos(), "every path through Set either stores the non-zero weight or deletes the entry", "Set with weight 0 can leave an earlier non-zero entry in place (overwriting with zero does not remove the validator)")
 
-		nv := c.Fn(c11Pkg + ".newValidators")
+		nv := c11Fn(c, c11Pkg+".newValidators")
 		par := nv.Param(0)
 		obj := c11Constructed(nv, c11V)
 		c.Need(par != nil && obj != nil, "newValidators(values) builds one Validators object whose fields are each initialised once")
 		kvs := obj.Fields
-		M := varOf(nv, kvs[c11FVValues])
+		// the map may reach the object through a chain of plain copies (values: m; m := tmp)
+		M := canonVar(nv, varOf(nv, kvs[c11FVValues]))
 		fresh := false
 		if M != nil && M != par {
 			if d := c11SingleDef(nv, M); d != nil {
@@ -822,7 +903,7 @@ func runC12(c *core.Ctx) {
 		}
 		c.Check(fresh, "newValidators stores a fresh map", "T6 (no alias of the builder)", obj.Pos, "values is a map created inside newValidators, not the caller's builder",
 			"the Validators object shares the caller's builder map: a later builder.Set changes the read-only set without recomputing order, total and quorum")
-		nb := c.Fn(c11Pkg + ".NewBuilder")
+		nb := c11Fn(c, c11Pkg+".NewBuilder")
 		okNB := len(nb.ReturnPoints()) > 0
 		for _, rp := range nb.ReturnPoints() {
 			r := rp.Node().(*ast.ReturnStmt)
@@ -879,10 +960,10 @@ func runC12(c *core.Ctx) {
 			"the private copy is not filled by Set for every pair: zero-weight entries written directly into a builder map reach the set, or pairs are lost")
 	})
 
-	c.Clause("C12.rlp", func() {
-		sa := c.Fn(c11V + ".sortedArray")
-		enc := c.Fn(c11V + ".EncodeRLP")
-		dec := c.Fn(c11V + ".DecodeRLP")
+	c11Clause(c, "C12.rlp", func(c *core.Ctx) {
+		sa := c11Fn(c, c11V+".sortedArray")
+		enc := c11Fn(c, c11V+".EncodeRLP")
+		dec := c11Fn(c, c11V+".DecodeRLP")
 		okE := len(enc.ReturnPoints()) > 0
 		for _, rp := range enc.ReturnPoints() {
 			r := rp.Node().(*ast.ReturnStmt)
@@ -982,6 +1063,20 @@ func runC12(c *core.Ctx) {
 		c.Check(okNil && nNil > 0, "success only after the receiver was replaced", "T2 Dominates", dec.Pos(), "DecodeRLP returns nil only after *receiver was assigned", "DecodeRLP can report success without having set the receiver")
 	})
 
+	// Copy and Build hand out fresh objects (decided on the functions as written or on their inlined views)
+	freshOK := map[string]bool{}
+	c11Clause(c, "C12.immutable", func(c *core.Ctx) {
+		for _, nm := range []string{c11V + ".Copy", c12B + ".Build"} {
+			f := c11Fn(c, nm)
+			ok := len(f.ReturnPoints()) > 0
+			for _, rp := range f.ReturnPoints() {
+				r := rp.Node().(*ast.ReturnStmt)
+				ok = ok && len(r.Results) == 1 && isCallTo(f, r.Results[0], c11Pkg+".newValidators") != nil
+			}
+			c.Check(ok, short(nm)+" returns newValidators(...)", "T6 (fresh object)", f.Pos(), "the result is a new object with its own values map and cache", short(nm)+" does not return a freshly constructed object: callers that mutate the result's builder change a shared set")
+			freshOK[nm] = ok
+		}
+	})
 	c.Clause("C12.immutable", func() {
 		n := c11Writers(c,
 			[]string{c11FVValues, c11FVCache, c11FIndexes, c11FWeights, c11FIDs, c11FTotal},
@@ -992,23 +1087,16 @@ func runC12(c *core.Ctx) {
 		nvObj := p.LookupFunc(c11Pkg + ".newValidators")
 		c.Need(nvObj != nil, "newValidators")
 		fresh[nvObj] = true
-		for _, nm := range []string{c11V + ".Copy", c12B + ".Build"} {
-			f := c.Fn(nm)
-			ok := len(f.ReturnPoints()) > 0
-			for _, rp := range f.ReturnPoints() {
-				r := rp.Node().(*ast.ReturnStmt)
-				ok = ok && len(r.Results) == 1 && isCallTo(f, r.Results[0], c11Pkg+".newValidators") != nil
-			}
-			c.Check(ok, short(nm)+" returns newValidators(...)", "T6 (fresh object)", f.Pos(), "the result is a new object with its own values map and cache", short(nm)+" does not return a freshly constructed object: callers that mutate the result's builder change a shared set")
-			if ok {
-				fresh[f.Obj] = true
+		for nm, ok := range freshOK {
+			if fn := p.LookupFunc(nm); ok && fn != nil {
+				fresh[fn] = true
 			}
 		}
 		c12AliasRule(c, fresh)
 	})
 
-	c.Clause("C12.big", func() {
-		f := c.Fn(c12Big + ".Build")
+	c11Clause(c, "C12.big", func(c *core.Ctx) {
+		f := c11Fn(c, c12Big+".Build")
 		recv := f.Recv()
 		c.Need(recv != nil, "Build has a named receiver")
 		loops := c12RangeOver(f, func(e ast.Expr) bool { return varOf(f, e) == recv })
@@ -1202,7 +1290,7 @@ func runC12(c *core.Ctx) {
 			}
 		}
 		c.Check(okBits, "bits = BitLen(total stake)", "provenance", f.Pos(), "bits is receiver.TotalWeight().BitLen()", "the bit length is not taken from the total of all stakes: the scaled total is not bounded")
-		tw := c.Fn(c12Big + ".TotalWeight")
+		tw := c11Fn(c, c12Big+".TotalWeight")
 		okTW := false
 		if twl := c12RangeOver(tw, func(e ast.Expr) bool { return varOf(tw, e) == tw.Recv() && tw.Recv() != nil }); len(twl) == 1 && twl[0].Value != nil {
 			wv := varOf(tw, twl[0].Value)
@@ -1240,7 +1328,7 @@ func runC12(c *core.Ctx) {
 		c.Check(okTW, "TotalWeight sums every stake", "T10-ii MapOrder (commutative accumulation)", tw.Pos(), "res starts as new(big.Int) and res.Add(res, w) runs for every ranged stake", "the big total is not the sum of all stakes: BitLen underestimates and the scaled total can exceed the limit")
 
 		// T15 against the limit of calcCaches
-		calc := c.Fn(c11V + ".calcCaches")
+		calc := c11Fn(c, c11V+".calcCaches")
 		_, K, _, why := c11FindLimit(calc)
 		if K == nil {
 			c.Undecided("2^B-1 <= K < 2^(B+1)-1", "T15 ConstRelation", calc.Pos(), "limit of calcCaches not found: "+why)
@@ -1284,6 +1372,7 @@ type c12Alias struct {
 	changed  bool
 	findings map[string]*c12Finding
 	order    []string
+	cur      ast.Expr // the aliased expression being classified
 }
 
 func c12AliasRule(c *core.Ctx, fresh map[*types.Func]bool) {
@@ -1522,8 +1611,24 @@ func (a *c12Alias) scan(f *core.FuncInfo) {
 }
 
 func (a *c12Alias) mutation(f *core.FuncInfo, fld, detail string) (core.Status, string) {
-	if fld != "" && a.exempt[f.Name+"|"+fld] {
-		return core.Discharged, ""
+	if fld != "" {
+		// the store is an effect of the functions it is attributed to: f itself, or - when f is a delegate
+		// (a private helper that is only ever called) and the field is reached through one of its
+		// parameters - its callers, transitively (see c11_deleg.go)
+		var r *types.Var
+		if a.cur != nil {
+			root, _ := c11Chain(f, a.cur)
+			r = varOf(f, root)
+		}
+		ok := true
+		for _, at := range c11DelegOf(a.p).attributed(f, r, c11DelegDepth) {
+			if !a.exempt[at.F.Name+"|"+fld] {
+				ok = false
+			}
+		}
+		if ok {
+			return core.Discharged, ""
+		}
 	}
 	return core.Violated, detail
 }
@@ -1532,6 +1637,7 @@ func (a *c12Alias) mutation(f *core.FuncInfo, fld, detail string) (core.Status, 
 func (a *c12Alias) classify(f *core.FuncInfo, e ast.Expr, parents []ast.Node, what, fld string) (core.Status, string) {
 	info := f.Info()
 	var cur ast.Node = e
+	a.cur = e
 	und := func(s string) (core.Status, string) {
 		return core.Undecided, what + " in " + f.Name + ": " + s + " (use not classified as read-only)"
 	}
